@@ -302,7 +302,23 @@ pub fn check_cli(case: &Case, w: usize) -> CheckResult {
     } else {
         vec![]
     };
+    // a quarter of the cases with a `log tail` listener attached: what is streamed must not
+    // change what is stored
+    let with_listener = (case.rng_seed >> 50) % 4 == 0;
+    let mut tail = None;
+    if with_listener {
+        let mut t = env.mr_spawn(&["log", "tail", "--stdout", "--stderr"], &[]);
+        if !bb::wait_listening(env.log_port, std::time::Duration::from_secs(20)) {
+            t.kill_group();
+            return inconclusive("log tail did not start listening".into());
+        }
+        tail = Some(t);
+    }
     let out = env.mr_env(&["run", "-c", "c0"], &points, std::time::Duration::from_secs(300));
+    if let Some(mut t) = tail {
+        t.kill_group();
+        let _ = t.wait(std::time::Duration::from_secs(10));
+    }
     let Some(doc) = out.json() else {
         return viol_obs("c08.cli.run.failed", "run of all-zero-exit commands failed".into(), out.brief());
     };
@@ -335,7 +351,7 @@ pub fn check_cli(case: &Case, w: usize) -> CheckResult {
         return viol(&format!("c08.cli.logshow.{}", kind), format!("log show: {}", msg));
     }
     let (nt, classes) = classify(&case.streams);
-    let mut info = CaseInfo::new(nt).inv(env.invocations).class_if(slow_compressor, "slow-compressor-thread");
+    let mut info = CaseInfo::new(nt).inv(env.invocations).class_if(slow_compressor, "slow-compressor-thread").class_if(with_listener, "tail-listener-attached");
     for c in classes {
         info = info.class(c);
     }
